@@ -43,7 +43,7 @@ type scenario struct {
 	Bcast   bool     `json:"broadcast_flag"`
 }
 
-var discKinds = []string{"offer", "offer", "offer-dup", "offer-wrongxid", "ack-instead", "nak-instead", "undecodable", "offer-wronghw", "offer-request-opcode", "silence"}
+var discKinds = []string{"offer", "offer", "offer-dup", "offer-wrongxid", "ack-instead", "nak-instead", "undecodable", "offer-wronghw", "offer-emptyhw", "offer-request-opcode", "silence"}
 var reqKinds = []string{"ack", "ack", "nak", "ack-othersid", "ack-nosid", "offer-again", "ack-wrongxid", "nak-othersid", "undecodable", "silence"}
 
 func genScenario(rng *rand.Rand, maxServers, maxReact int) scenario {
@@ -126,6 +126,9 @@ func (w *world) datagram(sv *server, si int, kind string, req *ref4.P4) (*inject
 		in.class = "dropped"
 	case "offer-wronghw":
 		p.ClientHWAddr[5] ^= 1
+		in.class = "dropped"
+	case "offer-emptyhw":
+		p.ClientHWAddr = nil
 		in.class = "dropped"
 	case "offer-request-opcode":
 		p.OpCode = dhcpv4.OpcodeBootRequest
